@@ -29,10 +29,14 @@ ASSUMPTIONS = [
 ]
 OCT_SIZES = [16, 20, 24, 32, 48, 64]
 KEY_KINDS = ["oct%d" % n for n in OCT_SIZES] + ["rsa1024", "rsa2047", "rsa2041", "rsa", "P-256", "P-384", "P-521", "secp256k1", "Ed25519", "Ed448", "X25519", "X448"]
+QUICK_KINDS = ["oct16", "oct24", "oct32", "oct64", "rsa1024", "rsa2047", "rsa", "P-256", "P-384", "P-521", "secp256k1", "Ed25519", "Ed448", "X25519", "X448"]
 ALL_OPS = ["sign", "verify", "encrypt", "decrypt", "wrapKey", "unwrapKey", "deriveKey", "deriveBits"]
 DECL = [("none", {}), ("use-sig", {"use": "sig"}), ("use-enc", {"use": "enc"})] + [(f"ops-{o}", {"key_ops": [o]}) for o in ALL_OPS] + \
        [("ops-sign+verify", {"key_ops": ["sign", "verify"]}), ("ops-wrap+unwrap", {"key_ops": ["wrapKey", "unwrapKey"]}),
-        ("ops-encrypt+decrypt", {"key_ops": ["encrypt", "decrypt"]}), ("ops-derive", {"key_ops": ["deriveKey", "deriveBits"]})]
+        ("ops-encrypt+decrypt", {"key_ops": ["encrypt", "decrypt"]}), ("ops-derive", {"key_ops": ["deriveKey", "deriveBits"]}),
+        ("use-sig+ops-sign+verify", {"use": "sig", "key_ops": ["sign", "verify"]}), ("use-sig+ops-verify", {"use": "sig", "key_ops": ["verify"]}),
+        ("use-enc+ops-wrap+unwrap", {"use": "enc", "key_ops": ["wrapKey", "unwrapKey"]}), ("use-enc+ops-encrypt+decrypt", {"use": "enc", "key_ops": ["encrypt", "decrypt"]}),
+        ("use-enc+ops-derive", {"use": "enc", "key_ops": ["deriveKey", "deriveBits"]}), ("use-enc+ops-decrypt", {"use": "enc", "key_ops": ["decrypt"]})]
 
 
 def kind_jwk(kind, which=0):
@@ -199,7 +203,7 @@ JWS_PATHS = ["compact", "flattened", "general", "7797-compact", "7797-flattened"
 def h_jws(ctx):
     from joserfc import jws, jwt, rfc7797
     alg = ctx.choose("alg", scen.JWS_ALL)
-    kind = ctx.choose("key", KEY_KINDS)
+    kind = ctx.choose("key", KEY_KINDS if config.thorough() else QUICK_KINDS)
     private = ctx.choose("private", [True] if kind.startswith("oct") else [True, False])
     dname, decl = ctx.choose("declared", DECL)
     op = ctx.choose("operation", ["sign", "verify"])
@@ -208,7 +212,7 @@ def h_jws(ctx):
         return Outcome("not-importable", [], nontrivial=None)
     jwk = kind_jwk(kind)
     why = suitable(alg, None, jwk, decl, op, private)
-    via = ctx.choose("declared_via", ["jwk-members", "parameters", "jwk-members+other-parameters", "pem+parameters"] if decl else ["jwk-members"])
+    via = ctx.choose("declared_via", (["jwk-members", "parameters", "jwk-members+other-parameters", "pem+parameters"] if config.thorough() else ["jwk-members", "jwk-members+other-parameters", "pem+parameters"]) if decl else ["jwk-members"])
     base_src = jwk if private else rjwk.public_of(jwk)
     if via == "jwk-members":
         k = call(A.jkey, {**base_src, **copy.deepcopy(decl)}, "dict")
@@ -279,7 +283,7 @@ def h_jwe(ctx):
     enc = ctx.choose("enc", ["A128GCM", "A256GCM", "A128CBC-HS256", "A256CBC-HS512"] if config.thorough() else ["A128GCM", "A256CBC-HS512"])
     if "1PU+" in alg and ENC[enc][0] != "cbc":
         return Outcome("forbidden-mix", [], nontrivial=None)
-    kind = ctx.choose("key", KEY_KINDS)
+    kind = ctx.choose("key", KEY_KINDS if config.thorough() else QUICK_KINDS)
     private = ctx.choose("private", [True] if kind.startswith("oct") else [True, False])
     dname, decl = ctx.choose("declared", DECL)
     op = ctx.choose("operation", ["encrypt", "decrypt"])
@@ -288,7 +292,7 @@ def h_jwe(ctx):
         return Outcome("not-applicable", [], nontrivial=None)
     jwk = kind_jwk(kind)
     why = suitable(alg, enc, jwk, decl, op, private)
-    via = ctx.choose("declared_via", ["jwk-members", "parameters", "jwk-members+other-parameters", "pem+parameters"] if decl else ["jwk-members"])
+    via = ctx.choose("declared_via", (["jwk-members", "parameters", "jwk-members+other-parameters", "pem+parameters"] if config.thorough() else ["jwk-members", "jwk-members+other-parameters", "pem+parameters"]) if decl else ["jwk-members"])
     base_src = jwk if private else rjwk.public_of(jwk)
     if via == "jwk-members":
         k = call(A.jkey, {**base_src, **copy.deepcopy(decl)}, "dict")
